@@ -232,7 +232,7 @@ func RunC05(tier string, seed int64, outDir string, replay string) (*core.Result
 	res.Rule = "random valid operation sets with ONE injected fault from 23 classes (every validation-rule family, anonymous/keyword names, unusable files) placed in any .graphql file or `# @genqlient` Go literal of a random layout, plus 2-3 step histories over one directory in which only the schema changes at the same paths; reference verdict = gqlparser's validator run by the harness on the union document; non-trivial = the faulty/edited variant; distinct by project text"
 	per := 8
 	if tier == "thorough" {
-		per = 60
+		per = 150
 	}
 	rng := core.NewRng(seed)
 	var cases []*c05Case
